@@ -172,7 +172,7 @@ def applyTok (d : DSt) (tok : String) : DSt × String :=
     | ["Q"] => (d, if quiescentB d then "Q" else "NQ")
     | ["NQ"] => (d, if quiescentB d then "Q" else "NQ")
     | _ =>
-      if t == "-" || t == "none" || t == "NOTRUNNING" || t == "nosuch" || t == "dead" || t == "kj" || t.startsWith "z" then (d, t)
+      if t == "-" || t == "none" || t == "noparked" || t == "NOTRUNNING" || t == "nosuch" || t == "dead" || t == "kj" || t.startsWith "z" then (d, t)
       else bad "no-such-step"
   | _ => bad "unknown"
 
